@@ -467,11 +467,33 @@ def r7(ctx, cfg):
                 def is_field(o, p, fld):
                     o = peel(o)
                     return o[0] == "field" and o[2] == fld and is_param(o[1], p)
-                shape = v[0] == "call" and v[1].endswith("Div::div") and is_field(v[2][1], "validator_info", "stake") and peel(v[2][0])[0] == "call" and \
-                    peel(v[2][0])[1].endswith("Mul::mul") and \
-                    {("r" if is_param(x, "rewards") else "s" if is_field(x, "self", "stake") else "?") for x in peel(v[2][0])[2]} == {"r", "s"}
+                # (the quotient may be computed in a wider type and converted back: `Decimal::try_from(a256 * b256 / t256).expect(..)`)
+                def unwide(o):
+                    o = peel(o)
+                    while o[0] in ("ok", "some") or (o[0] == "call" and o[1].rsplit("::", 1)[-1] in ("expect", "unwrap", "try_from", "try_into", "from", "into") and len(o[2]) >= 1 and
+                                                      (o[1].rsplit("::", 1)[-1] in ("expect", "unwrap") or len(o[2]) == 1)):
+                        o = peel(o[1] if o[0] in ("ok", "some") else o[2][0])
+                    return o
+                v = unwide(v)
+                def is_total(o):
+                    o = unwide(o)
+                    if o[0] == "call" and o[1].endswith("from_ratio") and len(o[2]) == 2 and peel(o[2][1]) == ("const", "int", 1):
+                        o = peel(o[2][0])
+                    return o[0] == "field" and o[2] == "stake" and is_param(o[1], "validator_info")
+                prod = unwide(v[2][0]) if v[0] == "call" and v[1].endswith("Div::div") else ("?",)
+                shape = v[0] == "call" and v[1].endswith("Div::div") and is_total(v[2][1]) and prod[0] == "call" and prod[1].endswith("Mul::mul") and \
+                    {("r" if is_param(unwide(x), "rewards") else "s" if is_field(unwide(x), "self", "stake") else "?") for x in prod[2]} == {"r", "s"}
                 ok = ok and shape and zc in ([False], [])
                 d.append("%s under is_zero=%s" % (fmt(v)[:80], zc))
+                # rewards and stake are both amounts: their product leaves the range of the 128-bit `Decimal` (3.4e20) for ordinary
+                # sizes - 1e12 staked (a million tokens of a coin with six decimals) once 3.4e8 of rewards have accrued, after
+                # less than two days at 10 % - although the share itself is small; the product has to be formed in 256 bits
+                if shape:
+                    wide = "Decimal256" in (prod[3] or "") if len(prod) > 3 else False
+                    ctx.ob(R, key, "product-of-two-amounts-formed-in-256-bits", wide,
+                           "share_of_rewards multiplies rewards by stake in %s: the product overflows (a panic in every staking operation and query of "
+                           "that validator from then on) as soon as rewards x stake reaches 3.4e20" % (prod[3] if len(prod) > 3 else "?"), fn=f,
+                           sample="Decimal256::from(rewards) * Decimal256::from(self.stake) / total")
         n_zero = sum(1 for x in d if x.startswith("zero under"))
         ctx.ob(R, key, "share = rewards * own stake / validator stake (zero without stake)", ok and n_share == 1 and n_zero >= 1, "share_of_rewards yields %s" % d, fn=f,
                sample="rewards * self.stake / validator_info.stake")
